@@ -125,6 +125,8 @@ func c32tail(r *rand.Rand) []byte {
 	return t
 }
 
+func pu2(s string) uint64 { v, _ := strconv.ParseUint(s, 10, 64); return v }
+
 func init() {
 	ks := []int{2, 4, 8}
 	vu.Register("C32", &vu.Prop{
@@ -174,6 +176,42 @@ func init() {
 						emit("CMP", strconv.Itoa(k), vu.U64(v), vu.U64((v+1)&max), strconv.Itoa(t))
 					}
 				}
+			}
+			// byte-wise ID order through the real hash.OrderedEvents: Less on pairs, ByEpochAndLamport on
+			// lists; epochs / lamports from boundary classes of uint32 (differences >= 2^31 included)
+			c32bnd := func() uint64 {
+				cls := []uint64{0, 1, 2, 1<<31 - 2, 1<<31 - 1, 1 << 31, 1<<31 + 1, 1<<31 + 2, 1<<32 - 2, 1<<32 - 1}
+				if r.Intn(3) == 0 {
+					return uint64(r.Uint32())
+				}
+				return cls[r.Intn(len(cls))]
+			}
+			for i := 0; i < n/4+20; i++ {
+				e1, l1, e2, l2 := c32bnd(), c32bnd(), c32bnd(), c32bnd()
+				t1, t2 := c32tail(r), c32tail(r)
+				switch r.Intn(4) {
+				case 0:
+					e2 = e1
+				case 1:
+					e2, l2 = e1, l1
+				}
+				emit("IDLESS", vu.U64(e1), vu.U64(l1), vu.Hex(t1), vu.U64(e2), vu.U64(l2), vu.Hex(t2))
+				in := []string{"IDSORT"}
+				m := 2 + r.Intn(11)
+				if r.Intn(10) == 0 {
+					m = 13 + r.Intn(40) // sort.Sort switches algorithm above 12 elements
+				}
+				for j := 0; j < m; j++ {
+					e, l, t := c32bnd(), c32bnd(), c32tail(r)
+					if j > 0 && r.Intn(4) == 0 { // equal epoch (and lamport): lamport / tail decide
+						e = pu2(in[1])
+						if r.Intn(2) == 0 {
+							l = pu2(in[2])
+						}
+					}
+					in = append(in, vu.U64(e), vu.U64(l), vu.Hex(t))
+				}
+				emit(in...)
 			}
 			for i := 0; i < n; i++ {
 				k := ks[r.Intn(3)]
@@ -295,6 +333,31 @@ func init() {
 				b := mkid(pu(in[4]), pu(in[5]), vu.UnHex(in[6]))
 				vu.Stat("idcmp")
 				return []string{cmpTok(bytes.Compare(a.Bytes(), b.Bytes()))}
+			case "IDLESS":
+				a := mkid(pu(in[1]), pu(in[2]), vu.UnHex(in[3]))
+				b := mkid(pu(in[4]), pu(in[5]), vu.UnHex(in[6]))
+				vu.Stat("idless")
+				return []string{vu.B(hash.OrderedEvents{a, b}.Less(0, 1))}
+			case "IDSORT":
+				var oe hash.OrderedEvents
+				wide := false
+				for i := 1; i+2 < len(in); i += 3 {
+					oe = append(oe, mkid(pu(in[i]), pu(in[i+1]), vu.UnHex(in[i+2])))
+					if len(oe) > 1 {
+						d := int64(pu(in[i])) - int64(pu(in[1]))
+						wide = wide || d >= 1<<31 || d <= -(1<<31)
+					}
+				}
+				oe.ByEpochAndLamport()
+				vu.Stat("idsort")
+				if wide {
+					vu.Stat("idsort_epochs_2^31_apart")
+				}
+				out := make([]string, len(oe))
+				for i, id := range oe {
+					out[i] = vu.Hex(id.Bytes())
+				}
+				return out
 			}
 			return []string{"BAD"}
 		},
